@@ -22,7 +22,8 @@ def ntlm_setup() -> None:
     import atexit
     import shutil
 
-    d = tempfile.mkdtemp(prefix="verif-ntlm-")
+    base = os.environ.get("VERIF_RUN_TMP")
+    d = tempfile.mkdtemp(prefix="verif-ntlm-", dir=base if base and os.path.isdir(base) else None)
     atexit.register(shutil.rmtree, d, True)
     path = os.path.join(d, "users")
     with open(path, "w") as f:
